@@ -547,6 +547,26 @@ def _blocks(items):
     return out
 
 
+def _access_widths(body, ptr_dst, ptr_src):
+    """byte widths of every load and store through the two walking pointers in a straight-line block"""
+    out = []
+    for ins in body:
+        op, args = ins.op, ins.args
+        if len(args) < 2:
+            continue
+        for a in args:
+            if a[0] == "mem" and a[2] in (ptr_dst, ptr_src):
+                reg = next((b[1] for b in args if b[0] == "reg"), "")
+                if op in ("movl", "vmovd", "movd", "subl", "addl"):
+                    w = 4
+                elif op in ("movq", "vmovq"):
+                    w = 8
+                else:
+                    w = WIDTH_OF_MOVE.get(reg[:3], 0)
+                out.append((a[2], a[1], w, op))
+    return out
+
+
 def _lane_dataflow(body, ptr_dst, ptr_src):
     """symbolic value stored through ptr_dst by a straight-line block: registers hold 'r' (loaded from dst),
     'a' (loaded from src) or ('-', x, y) / ('+', x, y).  -> (stored value, store width in bytes) or None"""
@@ -580,6 +600,18 @@ def _lane_dataflow(body, ptr_dst, ptr_src):
             s, d = args
             if d[1] in val or s[1] in val:
                 val[d[1]] = ("-" if op.startswith(("psub", "sub")) else "+", val.get(d[1], "?"), val.get(s[1], "?"))
+        elif op in ("psubd", "paddd", "subl", "addl", "vpsubd", "vpaddd") and args[0][0] == "mem" and args[-1][0] == "reg":
+            m = args[0]
+            mv = "r" if (m[2] == ptr_dst and m[1] == 0 and m[3] is None) else "a" if (m[2] == ptr_src and m[1] == 0 and m[3] is None) else "?"
+            first = args[1][1] if len(args) == 3 else args[-1][1]
+            val[args[-1][1]] = ("-" if "sub" in op else "+", val.get(first, "?"), mv)
+        elif op in ("subl", "addl") and args[0][0] == "reg" and args[1][0] == "mem":
+            # read-modify-write directly on memory
+            m = args[1]
+            if m[2] == ptr_dst and m[1] == 0 and m[3] is None:
+                stored = (("-" if op == "subl" else "+", "r", val.get(args[0][1], "?")), 4)
+            else:
+                return None
     return stored
 
 
@@ -589,6 +621,7 @@ def classify_stripmined(items, regs_init):
     Returns dict(ok=bool, problems=[...], facts={...})."""
     pd, ps, rn = regs_init.get("dst"), regs_init.get("src"), regs_init.get("n")
     problems, facts = [], {}
+    safety = facts.setdefault("safety", [])
     blocks = _blocks(items)
     # prologue: n0 = n & ~(W-1), end = src + 4*n0
     pro = blocks[0][1]
@@ -630,6 +663,13 @@ def classify_stripmined(items, regs_init):
         problems.append("main loop does not store one %d-lane vector through dst (%s)" % (W, st))
     if strides.get(pd) != 4 * W or strides.get(ps) != 4 * W:
         problems.append("main loop strides %s differ from the vector width %d bytes" % (strides, 4 * W))
+    # memory safety of the main loop: it runs n0/W... iterations counted on src; dst must not advance faster than src and
+    # no access may be wider than the stride of its pointer
+    if (strides.get(pd) or 0) > (strides.get(ps) or 0) or (strides.get(ps) or 0) > 4 * W:
+        safety.append("main loop advances dst by %s and src by %s bytes per %d admitted lanes" % (strides.get(pd), strides.get(ps), W))
+    for reg, off, w, op in _access_widths(body, pd, ps):
+        if off + w > 4 * W or off < 0:
+            safety.append("main loop: %s accesses bytes [%d,%d) of a %d-byte block through %%%s" % (op, off, off + w, 4 * W, reg))
     facts["op"] = st[0] if st else None
     # top-tested or guarded?
     guarded = guard not in (False, "pending")
@@ -665,6 +705,15 @@ def classify_stripmined(items, regs_init):
             problems.append("tail %s computes %s, main loop computes %s" % (w, stt[0], facts["op"]))
         if w != 1 and (strd.get(pd) != 4 * w or strd.get(ps) != 4 * w):
             problems.append("tail %s advances pointers by %s, expected %d" % (w, strd, 4 * w))
+        # memory safety: the guard rem >= w admits w more lanes behind each pointer
+        for reg, off, aw, op in _access_widths(blk, pd, ps):
+            if off + aw > 4 * w or off < 0:
+                safety.append("tail %s: %s accesses bytes [%d,%d) through %%%s where the guard admits only %d bytes" % (
+                    w, op, off, off + aw, reg, 4 * w))
+        for reg in (pd, ps):
+            adv = strd.get(reg) or 0
+            if adv > 4 * w or adv < 0:
+                safety.append("tail %s advances %%%s by %d bytes where the guard admits %d" % (w, reg, adv, 4 * w))
         if w != 1 and strd.get(rn) != -w:
             problems.append("tail %s does not subtract %s from the remainder" % (w, w))
     facts["tails"] = tail_widths
